@@ -532,11 +532,14 @@ def monitor_V(line, out):
         name = "SimulatedBinaryCrossover" if kind == "X" else "PolynomialMutator"
         for c in kids:
             if len(c) != n: return ["%s: child has %d coordinates" % (name, len(c))]
+        # independent of the model: parents inside the box => every child coordinate the C++ prints is a FINITE number in [lower, upper]
         if inside:
             for ci, c in enumerate(kids):
                 for j, (x, a, b) in enumerate(zip(c, lo, hi)):
-                    if not (a <= x <= b):
-                        return ["%s: parents inside the box, child %d coordinate %d = %r outside [%r, %r]%s" % (name, ci + 1, j, x, a, b, " (degenerate coordinate lower = upper)" if a == b else "")]
+                    if not (math.isfinite(x) and a <= x <= b):
+                        return ["%s: parents inside the box, child %d coordinate %d = %r is %s [%r, %r]%s" % (
+                            name, ci + 1, j, x, "not a finite number in" if not math.isfinite(x) else "outside", a, b,
+                            " (degenerate coordinate lower = upper)" if a == b else "")]
         if float(unhex(t[2])) == 0.0 and kids != parents: return ["%s with probability 0 changed the point" % name]
         return []
     if kind == "T":
@@ -559,6 +562,10 @@ def monitor_V(line, out):
         return []
     return ["unknown case kind"]
 
+def box_of(line):
+    t, _ = parse_V(line); n = int(t[1]); v = [unhex(x) for x in t[(4 if t[0] == "X" else 5):]]
+    return v[:n], v[n:2 * n]
+
 def cmp_V(o, m):
     a, b = kv(o), kv(m)
     return all(a.get(k) == v for k, v in b.items())
@@ -568,17 +575,17 @@ def run_V(ck, lines, model, exe, tmpd):
     outs = [o[0] if rc == 0 and o else "CRASH rc=%s" % rc for (o, rc, e) in io]
     rc, mo, err = run_lines(model, lines, os.path.join(tmpd, "V_model.txt"))
     if rc != 0 or len(mo) != len(lines): raise RuntimeError("model driver failed: " + err[-1000:])
-    mon = []; dis = []; degen = []
+    mon = []; dis = []; degen = [l for l in lines if l[:2] in ("M ", "X ") and any(a == b for a, b in zip(*box_of(l)))]
     for k, (l, o, m) in enumerate(zip(lines, outs, mo)):
         msgs = monitor_V(l, o)
-        if msgs and "degenerate coordinate lower = upper" in msgs[0] and l.startswith("M "):
-            degen.append(l)                      # PolynomialMutator on lower = upper: 0/0 = NaN (reported to the lead; the float model reproduces it)
-            if not cmp_V(o, m): dis.append(k)
-        elif msgs: mon.append((k, msgs))
+        if msgs: mon.append((k, msgs))
         elif not cmp_V(o, m): dis.append(k)
     seen = set()
     for k, msgs in mon:
         key = "variation:%s:%s" % (lines[k].split()[0], re.sub(r"[-\d.xa-fp+]+", "N", msgs[0])[:60])
+        if "parents inside the box, child" in msgs[0]:
+            op = "polynomial-mutation" if lines[k].startswith("M ") else "sbx"
+            key = "variation:%s-%s" % (op, "degenerate-box-nan" if "degenerate coordinate" in msgs[0] else ("child-nan" if "not a finite" in msgs[0] else "child-outside-box"))
         if key in seen or len(seen) >= 3: continue
         seen.add(key)
         cf = ck.write_replay("V_case_%d.txt" % k, lines[k] + "\n")
@@ -835,7 +842,8 @@ def main():
         "objective vectors are component-wise below the reference point (precondition of the contribution routines)",
         "objective functions are deterministic; PenalizingEvaluator re-evaluations average identical values",
         "NSGA3Indicator validity is proved under n3_finite (all association distances compare below DBL_MAX: no NaN / overflow) and at least one reference direction",
-        "CrowdingDistance = definition is proved over Q; an objective that is constant over front + archive (0/0 = NaN in the C++) and PolynomialMutator on a coordinate with lower = upper (NaN) are outside the rational theorems: compared with the float models, counted in the notes, reported to the lead",
+        "CrowdingDistance = definition is proved over Q; an objective that is constant over front + archive (0/0 = NaN in the C++) is outside the rational theorem: compared with the float model, counted in the notes (not part of C14's statement: the selection still marks mu individuals and respects ranks)",
+        "the in-box theorems of the variation operators are over Q (division an arbitrary function); NaN/overflow of the double evaluation is outside them and is covered by the run-time monitor (every child coordinate printed by the C++ is a finite number in [lower, upper] when the parents are inside the box)",
         "NSGA3Indicator / MOEAD / RVEA are exercised with mu >= number of objectives only: sampleLatticeUniformly(keep_corners) writes all corner rows into an n-row matrix (heap overflow for n < #objectives, seen under ASan); reported to the lead, not part of the stream",
         "tournament-based optimisers (SMS-EMOA, NSGA-II/III, RVEA) need mu > tournament size 2 (library exception otherwise)",
         "HypervolumeIndicator without reference point inside the optimisers: when the split front has fewer than k non-extreme points the extreme points are discarded last (since /repo commit 1a2ef572; before, the request was answered with garbage resp. rejected)"]
@@ -917,8 +925,7 @@ def main():
         ck.oblige("correspondence C14Var.sbx / pm / tournament / elitist = SimulatedBinaryCrossover / PolynomialMutator / TournamentSelection / ElitistSelection on %d calls" % len(v_lines),
                   vm == 0 and vd == 0, "%d monitor failures, %d disagreements" % (vm, vd) if vm or vd else "")
         ck.notes["variation_cases"] = len(v_lines)
-        ck.notes["polynomial_mutation_degenerate_box_nan_cases"] = len(vdegen)
-        ck.notes["polynomial_mutation_degenerate_box_nan_sample"] = vdegen[:1]
+        ck.notes["variation_cases_with_degenerate_coordinate_lower_eq_upper"] = len(vdegen)
 
     # ---- stream U: updatePopulation next to the loop model
     if not ck.replay: u_lines += gen_U(ck.rng, big, 4000 if big else 800)
